@@ -33,8 +33,12 @@ def specs_for(tier, seed):
                     add(kind, nth, f, L, "recoverable run")
             else:
                 # unrecoverable: a second transmission would also be answered with the error and show up
-                if tier == "thorough" or (pi + ti) % 3 == seed % 3:
+                # (answered once: the error is gone if the client asks again; three times: it is still there)
+                if tier == "thorough":
+                    add(kind, nth, f, 1, "unrecoverable")
                     add(kind, nth, f, 3, "unrecoverable")
+                else:
+                    add(kind, nth, f, 1 if (pi + ti + seed) % 2 else 3, "unrecoverable")
         for f in ["err:nonjson:500", "err:empty:502", "err:jsonarray:400", "err:jsonstr:404"]:
             if tier == "thorough" or (pi + len(f)) % 2 == seed % 2:
                 add(kind, nth, f, 3, "no problem document")
